@@ -17,7 +17,7 @@ from sim import world as Wd
 ID = 'C19'
 LEVEL = 'exploration'
 ENGINE = 'differential'
-BUDGET = {'quick': 2000, 'thorough': 150000}
+BUDGET = {'quick': 6000, 'thorough': 150000}
 WALL = {'quick': 45, 'thorough': 1500}
 RULE = ('a multiset of 1-6 well-formed entries (home + volume trash dirs) is mixed with 1-4 malformed neighbours (non-.trashinfo files and '
         'directories in info/, empty / truncated / binary / non-UTF-8 infos, missing Path or DeletionDate, bad date, info without payload, '
